@@ -183,7 +183,7 @@ CHECKS = {
         technique="exhaustive enumeration of (program x hostile scope) on the real macro; differential + model oracle, structural path-root scan",
         ref="DESIGN.md §3 C19"),
     "C20": dict(
-        text="Every sequence with repetition over 16 representative invocations up to length 3 (quick) / 4 + all 720 permutations of six (thorough) "
+        text="Every sequence with repetition over 18 representative invocations up to length 3 (quick) / 4 + all 720 permutations of six (thorough) "
              "is expanded inside one compiler process per history; each invocation's recorded (attr, input, output) at every position must equal "
              "the record of the same invocation expanded alone. The corpus is also expanded under 8 environments (incl. the variables build tools / CI / docs.rs set) x {alone, 16 concurrent processes}. "
              "Hash-seed independence is only sampled (R fresh processes) and reported as such.",
